@@ -12,6 +12,8 @@ def plan_C01(ctx):
     e2_build_algo(ctx)
     e1_int_coder(ctx)
     e1_chunking(ctx)
+    e1_loc_stream(ctx)
+    e2_loc_stream(ctx, n_of(ctx, 40, 600))
     run_family(ctx, "build_obs", n_of(ctx, 300, 6000), perfile=n_of(ctx, 20, 40))
     run_family(ctx, "build_big", n_of(ctx, 14, 168), perfile=1)          # sizes and cardinalities on the chunking constants
     run_family(ctx, "many_fields", n_of(ctx, 8, 120), perfile=2, seed_off=2)
@@ -112,6 +114,21 @@ def e1_int_coder(ctx):
         tlc_mc(ctx, "IntCoder", "MC_IntCoder_dev_NoFinalClose.cfg", workers=4, expect_violation="ChunksRight")
 
 
+def e1_loc_stream(ctx):
+    """E1: writer's size prefix and reader's framing of the location stream agree for every read/skip pattern."""
+    tlc_mc(ctx, "LocStream", "MC_LocStream.cfg")
+    devs(ctx, "LocStream", ["SizeOfIdPlusOne", "SizeWithoutEnd", "PrefixCountsRecords"], "Consumed")
+
+
+def e2_loc_stream(ctx, num):
+    """E2: random LocStream configurations on the real builder, merger and iterator (131-field segments)."""
+    import lift
+    behs = tlc_emit(ctx, "LocStream", "Gen_LocStream.cfg", os.path.join(ctx.work, "beh-loc.json"),
+                    extra=["-simulate", "num=%d" % (2 * num), "-depth", "8", "-seed", str(ctx.seed)])
+    behs = lift.dedupe(behs)[:num]
+    run_scenarios(ctx, [lift.lift_locstream(b, i) for i, b in enumerate(behs)], "e2loc", perfile=10, shards=4)
+
+
 def e1_load_layout(ctx):
     tlc_mc(ctx, "LoadLayout", "MC_LoadLayout.cfg", workers=4)
     tlc_mc(ctx, "LoadLayout", "MC_LoadLayout_dev_FieldsLookAhead.cfg", workers=4, expect_violation="LookAheadInsideData")
@@ -203,6 +220,8 @@ def plan_C05(ctx):
     e1_postings_iter(ctx)
     e1_chunking(ctx)
     e2_postings_iter(ctx, n_of(ctx, 400, 6000))
+    e1_loc_stream(ctx)
+    e2_loc_stream(ctx, n_of(ctx, 40, 600))
     run_family(ctx, "iter_walk", n_of(ctx, 300, 5000), perfile=50)
     run_family(ctx, "reuse_pairs", n_of(ctx, 324, 972), perfile=54, seed_off=3)
     run_family(ctx, "iter_big", n_of(ctx, 12, 150), perfile=n_of(ctx, 2, 5))
@@ -216,6 +235,9 @@ def plan_C05(ctx):
 
 def plan_tmp(ctx):
     import os
+    if os.environ.get("E2"):
+        globals()[os.environ["E2"]](ctx, int(os.environ.get("N", "50")))
+        return
     fams = os.environ.get("FAMS", "iter_walk").split(",")
     n = int(os.environ.get("N", "100"))
     for f in fams:
@@ -227,6 +249,8 @@ def plan_C02(ctx):
     e1_enumerator(ctx)
     e1_merge_algo(ctx)
     e1_chunking(ctx)
+    e1_loc_stream(ctx)
+    e2_loc_stream(ctx, n_of(ctx, 40, 600))
     run_family(ctx, "merge_obs", n_of(ctx, 250, 5000), perfile=n_of(ctx, 20, 40))
     run_family(ctx, "twin_merge", n_of(ctx, 40, 800), perfile=10, seed_off=7)
     run_family(ctx, "many_fields", n_of(ctx, 10, 100), perfile=2, seed_off=8)
@@ -367,6 +391,7 @@ def plan_C14(ctx):
     e1_builder_pool(ctx)
     run_family(ctx, "pool_seq", n_of(ctx, 150, 3000), perfile=n_of(ctx, 15, 40), env_extra={"VERIF_INLINE": "1"})
     run_family(ctx, "pool_big", n_of(ctx, 4, 40), perfile=1, env_extra={"VERIF_INLINE": "1"})
+    run_family(ctx, "wide_repeat", n_of(ctx, 12, 200), perfile=4, env_extra={"VERIF_INLINE": "1"})   # wide schema, sparse stored fields
     run_family(ctx, "conc_build", n_of(ctx, 40, 600), perfile=n_of(ctx, 10, 20))
     race_pass(ctx, "conc_build", n_of(ctx, 16, 200), "C14")
     require_cov(ctx, "pooled_builds")
